@@ -168,10 +168,12 @@ CLAIMED["C16"] = dict(
     note="Floating-point formulas are not proved; relations are on reported integers with unit slack. Differences "
          "from the transcription that keep every relation are MODEL-DRIFT, not violations.")
 
-SHELL_NOTE = ("Binding = ShellSim: the real arm functions driven directly under a virtual clock with real loopback "
-              "sockets; the inline body of the event loop (timer periods, arm order, the drain after each arm is "
-              "exercised through drain_packet_queue only) is not executed. Trusted: the harness's frame "
-              "classification by type code, the 24-bit digest, the fault injection (socket write side shut down).")
+SHELL_NOTE = ("Binding = ShellSim (the real arm functions driven directly under a virtual clock with real loopback "
+              "sockets; sees link internals, injects send failures / kernel back-pressure) and LoopSim (the unmodified "
+              "event loop as a task on a paused tokio clock with now_ms() routed to it; observed only from its "
+              "sockets, so timer periods, arm wiring and run-time configuration reads are executed for real). "
+              "Trusted: the harness's frame classification by type code, the 24-bit digest, the fault injection "
+              "(socket write side shut down, a 4 KiB datagram pair for back-pressure), tokio's paused-clock semantics.")
 
 CLAIMED["C01"] = dict(
     engine="tlc+shellsim", design_ref="4.1",
@@ -188,7 +190,7 @@ CLAIMED["C01"] = dict(
          "exactly the queue the specification says was flushed.",
     note=SHELL_NOTE + " Short sendmmsg counts / EAGAIN inside a batch are provoked by moving one link behind a "
          "4 KiB datagram pair wrapped in the real BatchUdpSocket (loopback UDP never pushes back); the 15 ms hold bound "
-         "is covered as `empty after every flush tick`, the timer itself is not executed.")
+         "is covered as `empty after every flush tick` at arm level and as a 15 virtual ms deadline on the real loop.")
 CLAIMED["C08"] = dict(
     engine="tlc+shellsim", design_ref="4.8",
     technique="TLA+ Lifecycle.tla monitor (own record of arrivals, teardowns, environment) and a design-level "
@@ -233,7 +235,7 @@ CLAIMED["C14"] = dict(
          "/ rate at the start of the pass, at most one pass may go by without one on a live link, and an RTT "
          "sample may be taken only from an echo of >= 10 bytes with 0 < RTT <= 10 s while a probe sent since the "
          "last echo / reset is outstanding; the smoothed RTT stays finite and non-negative.",
-    note=SHELL_NOTE + " The 1 s timer itself is not executed; passes are 1.0-1.5 s apart in the schedules.")
+    note=SHELL_NOTE + " At arm level passes are 1.0-1.5 s apart in the schedules; the 1 s timer itself runs in the LoopSim part.")
 
 CLAIMED["C15"] = dict(
     engine="tlc+codec", design_ref="4.15",
@@ -284,7 +286,8 @@ CLAIMED["C20"] = dict(
          "property.",
     note="Single-threaded manual executor: lock contention cannot occur on the real code there (no await inside a "
          "critical section), so the mutex hand-off is covered by the model (HubLock) only. The control-socket "
-         "connection task and the sender loop that call the hub are not executed by this check. A difference from "
+         "connection task is not executed by this check; the sender loop's own 1 Hz publish is (LoopSim with stalled "
+         "subscribers and a second publisher task). A difference from "
          "the model that keeps every clause (fewer deliveries, other order inside one fan-out, earlier pruning of "
          "closed subscribers) is MODEL-DRIFT, not a violation.")
 
